@@ -65,7 +65,184 @@ def _sample_arr_comb(rng, N, i=0):
 
 h_arr_comb_step.sampler = _sample_arr_comb
 
-HARNESSES = {"arr_comb_step": h_arr_comb_step}
+def _binom_env(env, N):
+    binom, ax = si.binom_table(N)
+    env.axioms += ax
+    return binom
+
+
+def h_comb_whole(env, N, side, c):
+    """The scalar comb under numba's int64 semantics, whole function, loop unrolled by a concrete
+    number of factors: side 'k' = concrete k with symbolic n >= 2k, side 'm' = concrete n-k with
+    symbolic k > n-k.  For all n <= N with C(n,k) < 2^31: no int64 overflow and the result is C(n,k)."""
+    if env.mode == "num":
+        n, k = env.ivar("n", 0, N), env.ivar("k", 0, N)
+        env.num_assumptions.append(("0<=k<=n", 0 <= k <= n))
+        env.num_assumptions.append(("C(n,k)<2^31", math.comb(n, k) < 2 ** 31))
+        env.records.append(("comb(n,k)==C(n,k)", "eq", int(combinatorics.comb(n, k)), math.comb(n, k), []))
+        return
+    binom = _binom_env(env, N)
+    n_, k_ = env.ivar("n", 0, N), env.ivar("k", 0, N)
+    if side == "k":
+        env.assume("k==c", k_ == c)
+        env.assume("n>=2k", n_ >= 2 * c)
+        n, k = si.SI(n_, 64), c
+    else:
+        env.assume("n==k+c", n_ == k_ + c)
+        env.assume("k>n-k", k_ > c)
+        n, k = si.SI(k_ + c, 64), si.SI(k_, 64)
+    env.assume("C(n,k)<2^31", binom(n_, k_) < 2 ** 31)
+    # redundant bound implied by the premise (C(n, c) is increasing in n): helps the solver split on n
+    nmax = max([n0 for n0 in range(2 * c, N + 1) if math.comb(n0, c) < 2 ** 31] or [2 * c])
+    env.assume("n<=nmax(c) (implied by C(n,k)<2^31)", n_ <= nmax)
+    fn = combinatorics.comb.py_func
+    env.functions.append(core.fn_ref(combinatorics.comb))
+    env.stubs.append("numba int64 semantics of comb modelled by machine integers: every arithmetic result carries a no-overflow obligation; binom = lookup table for n <= %d" % N)
+    r = fn(n, k)
+    env.holds("result == C(n,k)", si.SI.lift(r).e == binom(n_, k_))
+
+
+h_comb_whole.replay_any = True
+
+
+def _sample_comb(rng, N, side="k", c=0):
+    if side == "k":
+        k = c
+        n = rng.randint(2 * c, max(2 * c, N))
+    else:
+        k = rng.randint(c + 1, max(c + 1, N - c))
+        n = k + c
+    tries = 0
+    while math.comb(n, k) >= 2 ** 31 and tries < 200:
+        tries += 1
+        if side == "k":
+            n = rng.randint(2 * c, N)
+        else:
+            k = rng.randint(c + 1, N - c)
+            n = k + c
+    return {"n": n, "k": k}
+
+
+h_comb_whole.sampler = _sample_comb
+
+
+class _Vec:
+    """an occupation-number 'array' of machine integers: basis[..., j] and basis.shape"""
+    def __init__(self, items):
+        self.items = items
+        self.shape = (len(items),)
+    def __getitem__(self, idx):
+        if isinstance(idx, tuple):
+            idx = [k for k in idx if k is not Ellipsis][-1]
+        return self.items[int(idx)]
+
+
+def h_index_array_whole(env, d, N, which):
+    """get_index_in_fock_space_array / ..._subspace_array on ONE symbolic occupation vector (the functions
+    are elementwise over the leading axes), arr_comb replaced by its contract (verified by arr_comb_step):
+    accumulators of the declared dtypes never overflow while the index is below 2^31, and the result is
+    the rank sum_i C(s_i + i, i + 1)."""
+    fnc = indices.get_index_in_fock_space_array if which == "space" else indices.get_index_in_fock_subspace_array
+    if env.mode == "num":
+        v = [env.ivar("v%d" % j, 0, N) for j in range(d)]
+        env.num_assumptions.append(("sum(v)+d<=N", sum(v) + d <= N))
+        want, s_ = 0, 0
+        for i in range(d if which == "space" else d - 1):
+            s_ += v[-1 - i]
+            want += math.comb(s_ + i, i + 1)
+        env.num_assumptions.append(("index<2^31", want < 2 ** 31))
+        got = int(fnc(numpy.array([v], dtype=numpy.int32))[0])
+        env.records.append(("array index == rank", "eq", got, want, []))
+        return
+    binom = _binom_env(env, N)
+    vs = [env.ivar("v%d" % j, 0, N) for j in range(d)]
+    env.assume("sum(v)+d<=N", z3.Sum(vs) + d <= N)
+    want, s_ = z3.IntVal(0), z3.IntVal(0)
+    for i in range(d if which == "space" else d - 1):
+        s_ = s_ + vs[-1 - i]
+        want = want + binom(s_ + i, z3.IntVal(i + 1))
+    env.assume("index<2^31", want < 2 ** 31)
+    fn = fnc.py_func
+    env.functions.append(core.fn_ref(fnc))
+    env.stubs += ["arr_comb -> its contract binom(n, k) (0 where n < k or n < 0), established by the arr_comb_step obligations",
+                  "module-global np -> scalar machine-integer facade with dtype widths; the array functions are elementwise, one symbolic vector is analysed"]
+    g2 = dict(fn.__globals__)
+    g2["np"] = si.SINP()
+
+    def arr_comb_contract(n, k):
+        n = si.SI.lift(n)
+        return si.SI(z3.If(z3.Or(n.e < 0, n.e < k), z3.IntVal(0 if k > 0 else 1), binom(n.e, z3.IntVal(int(k)))), 64)
+    g2["arr_comb"] = arr_comb_contract
+    import types
+    f2 = types.FunctionType(fn.__code__, g2, fn.__name__, fn.__defaults__, fn.__closure__)
+    r = f2(_Vec([si.SI(x, 32) for x in vs]))
+    env.holds("result == rank", si.SI.lift(r).e == want)
+
+
+h_index_array_whole.replay_any = True
+
+
+def _sample_index(rng, d, N, which="space"):
+    v = [rng.randint(0, max(0, (N - d) // d)) for _ in range(d)]
+    return {"v%d" % j: v[j] for j in range(d)}
+
+
+h_index_array_whole.sampler = _sample_index
+
+
+def h_partitions_step(env, boxes, P):
+    """One iteration of partitions' enumeration loop from an arbitrary state satisfying the invariant
+    0 <= sep[0] < sep[1] < ... <= positions - 1 (not the last composition): every value stored into
+    `separators` and `result` fits its declared dtype, for all particle numbers <= P."""
+    import itertools as _it
+    if env.mode == "num":
+        p_ = env.ivar("particles", 0, P)
+        for j in range(boxes - 1):
+            env.ivar("sep%d" % j, 0, P + boxes)
+        got = combinatorics.partitions(boxes, p_)
+        want = sorted([v for v in _it.product(range(p_ + 1), repeat=boxes) if sum(v) == p_], key=lambda v: tuple(-x for x in v)) if p_ <= 400 else None
+        ok = want is None or [tuple(int(x) for x in r) for r in got] == want
+        env.records.append(("partitions(boxes, particles) == definition", "holds", ok, None, []))
+        return
+    pre, loop, post, glb, args = si.split_loop(combinatorics.partitions, kind=__import__("ast").While)
+    env.functions.append(core.fn_ref(combinatorics.partitions))
+    env.stubs += ["partitions: pre-loop statements executed to obtain the declared dtypes; comb -> fresh size; one loop iteration from an arbitrary state satisfying the stated invariant"]
+    particles = env.ivar("particles", 0, P)
+    g2 = dict(glb)
+    g2["np"] = si.SINP()
+    size = env.ivar("size", 2, 2 ** 31 - 1)
+    g2["comb"] = lambda a, b: si.SI(size, 64)
+    ns = {"boxes": boxes, "particles": si.SI(particles, 64), "out": None}
+    si.exec_stmts(pre, ns, g2)
+    sep = ns["separators"]
+    positions = si.SI.lift(ns["positions"]).e
+    # arbitrary state satisfying the invariant; not the final composition (index >= 1 remains)
+    vals = [env.ivar("sep%d" % j, 0, P + boxes) for j in range(boxes - 1)]
+    for j in range(boxes - 1):
+        env.assume("sep%d<=positions-(boxes-1-%d)" % (j, j), vals[j] <= positions - (boxes - 1 - j))
+        if j:
+            env.assume("sep%d>sep%d" % (j, j - 1), vals[j] > vals[j - 1])
+    env.assume("not the last composition", vals[0] < positions - (boxes - 1))
+    env.assume("values fit the declared dtype of separators (they were stored before)", z3.And([z3.And(v >= -(2 ** (sep.bits - 1)), v <= 2 ** (sep.bits - 1) - 1) for v in vals]))
+    sep.items = [si.SI(v, sep.bits) for v in vals]
+    idx = env.ivar("index", 1, 2 ** 31 - 2)
+    ns["index"] = si.SI(idx, 64)
+    si.exec_once(loop.body, ns, g2)
+    new = [si.SI.lift(x).e for x in ns["separators"].items]
+    conj = [new[j] <= positions - (boxes - 1 - j) for j in range(boxes - 1)] + [new[j] > new[j - 1] for j in range(1, boxes - 1)] + [new[0] >= 0]
+    env.holds("invariant preserved", z3.And(conj))
+
+
+h_partitions_step.replay_any = True
+
+
+def _sample_partitions(rng, boxes, P):
+    return {"particles": rng.randint(0, 6)}
+
+
+h_partitions_step.sampler = _sample_partitions
+
+HARNESSES = {"arr_comb_step": h_arr_comb_step, "comb_whole": h_comb_whole, "index_array_whole": h_index_array_whole, "partitions_step": h_partitions_step}
 
 
 # ----------------------------------------------------------------------------- E-CH harness file
@@ -178,9 +355,21 @@ EXPLANATION = (
 def run(rep, tier, seed, opts):
     only = opts.get("only")
     N = 72 if tier == "quick" else 160
-    if not only or "arr_comb" in only:
+    if not only or any(t in only for t in ("arr_comb", "comb_whole", "index_array", "partitions_step")):
         o = {"timeout_s": 120 if tier == "quick" else 600, "instance_timeout_s": 900, "seed": seed, "validation_points": 0}
-        for r in core.run_instances(__name__, [("arr_comb_step", {"N": N, "i": i}) for i in range(N)], o, jobs=opts.get("jobs")):
+        steps = range(N) if tier == "thorough" else sorted(set(range(0, 22)) | {30, 40, 50, 60, 66, 70})
+        inst = [("arr_comb_step", {"N": N, "i": i}) for i in steps if i < N]
+        inst += [("comb_whole", {"N": N, "side": "k", "c": c}) for c in (range(0, 18) if tier == "thorough" else (0, 1, 2, 3, 5, 8, 11, 13, 14, 15, 16, 17))]
+        inst += [("comb_whole", {"N": N, "side": "m", "c": c}) for c in (range(0, 17) if tier == "thorough" else (0, 1, 2, 4, 8, 14, 16))]
+        for d in (1, 2, 3, 4) if tier == "quick" else (1, 2, 3, 4, 5, 6):
+            inst.append(("index_array_whole", {"d": d, "N": N, "which": "space"}))
+            if d > 1:
+                inst.append(("index_array_whole", {"d": d, "N": N, "which": "subspace"}))
+        for boxes in (2, 3, 4):
+            inst.append(("partitions_step", {"boxes": boxes, "P": 60000 if boxes == 2 else 2000}))
+        if only:
+            inst = [i_ for i_ in inst if only in i_[0]]
+        for r in core.run_instances(__name__, inst, o, jobs=opts.get("jobs")):
             rep.add_instance_result(__name__, r)
     source, conds, bos, fer = build_source(tier)
     if only:
@@ -190,7 +379,7 @@ def run(rep, tier, seed, opts):
               futils.get_fock_space_index, futils._get_fock_space_index_first_quantized, futils.get_fock_subspace_index_first_quantized,
               futils._to_first_quantized, futils.next_first_quantized, futils._to_second_quantized, futils.get_fock_space_basis, futils.get_cutoff_fock_space_dimension):
         rep.note_function(f)
-    rep.bounds = {"bosonic (d, cutoff)": bos, "fermionic d": fer, "arr_comb": "all 0<=k<=n<=%d with C(n,k)<2^31 (n, k symbolic), every loop iteration i < %d (unrolled)" % (N, N),
+    rep.bounds = {"bosonic (d, cutoff)": bos, "fermionic d": fer, "arr_comb": "all 0<=k<=n<=%d with C(n,k)<2^31 (n, k symbolic); loop iterations: all i<%d (thorough) / i<22 and six larger ones (quick)" % (N, N), "comb": "whole function, k or n-k concrete <= 17, other argument symbolic <= %d" % N, "index arrays": "one symbolic occupation vector, d<=4 (6), sum+d<=%d" % N, "partitions": "one loop iteration, boxes 2..4, particles <= 60000 (boxes=2) / 2000",
                   "outside": "larger (d, cutoff) for the symbolic-vector checks; n > %d for arr_comb; the int32 accumulators of the *_array functions are covered only through the tables" % N}
     if conds:
         ch.run_conditions(rep, source, conds, timeout_s=30 if tier == "quick" else 120, per_path=10, jobs=opts.get("jobs"))
